@@ -572,6 +572,17 @@ def rt_semimdp_consistency(seed, n):
             w = dict(seed=sd, nsim=nsim, slip=mdp.slip, d1=repr(d1), emp=repr(emp), d2=repr(d2))
             out.append(dict(name='rt:SemiMDP:outcome-distribution-equals-the-empirical-distribution-of-its-own-simulations(any-seed-setting,asked-twice)',
                             ok=close(d1, emp) and close(d2, emp) and abs(sum(d1.values()) - 1) < 1e-9, witness=w))
+            # two DIFFERENT options with the SAME name (every option built without a name has the name None) in one semi-MDP, asked from the same state in
+            # either order: each one's outcomes are its own simulations' and end where IT declares terminal
+            o2 = SimpleOption(policy, {2, 4}, 200, name='to-3')
+            for first, second, t1, t2 in ((o, o2, {3, 4}, {2, 4}), (o2, o, {2, 4}, {3, 4})):
+                smb = smdp.SemiMarkovDecisionProcess(mdp=mdp, options=[o, o2], n_option_simulations=nsim, seed=sd)
+                da = as_dict(smb.next_state_transit_time_reward_dist(1, first))
+                db = as_dict(smb.next_state_transit_time_reward_dist(1, second))
+                emp_b = empirical(smb.run_simulations(1, second), mdp.discount_rate)
+                out.append(dict(name='rt:SemiMDP:two-options-with-the-same-name:each-ends-in-its-own-terminal-set-and-equals-its-own-simulations',
+                                ok=all(ns in t1 for (ns, _, _) in da) and all(ns in t2 for (ns, _, _) in db) and close(db, emp_b),
+                                witness=dict(seed=sd, nsim=nsim, slip=mdp.slip, first=sorted(t1), da=repr(da), db=repr(db), emp_b=repr(emp_b))))
             if sd is not None:
                 untouched = random.getstate() == st0
                 random.seed(77 + k)       # a different ambient state must not matter
